@@ -15,9 +15,9 @@ CHECKS = {
  "C12": dict(
   category="model_checking",
   text="Watcher.tla models paths as component sequences and transcribes path_of, id_of_path and the notification table; TLC checks RoundTrip over every "
-       "spelling of the reported path ('.', 'x/..'), Injective and TableExact for every entry to depth 3 x every kind (three as-built behaviours are "
+       "spelling of the reported path ('.', 'x/..', 'x/y/../..'), Injective and TableExact for every entry to depth 3 x every kind (three as-built behaviours are "
        "negative controls). Every (entry, kind, spelling) is materialised on disk and fed as a synthetic notify event to the real id_of_path and "
-       "the real event handler bound to a test channel, with one and two roots and with paths outside the roots; real inotify histories check the "
+       "the real event handler bound to a test channel, with one and two roots and with paths outside the roots; real inotify histories (one root, a symlinked root, and outer / inner / disjoint roots given to one builder in both orders) check the "
        "required entries end to end. WatcherSeq.tla states that the answer for a path does not depend on the paths converted before (one id builder lives across notifications; two negative controls); every history of two notifications is replayed through ONE real handler.",
   design="5/C12", note="Needs the cfg-guarded re-export of the private watcher pieces (anchors.hook_needed); without hooks only the specification is checked.",
   technique="TLA+ specs Watcher.tla, WatcherSeq.tla checked by TLC; exhaustive spec->code replay through the real handler (fresh and long-lived); real-watcher histories",
@@ -35,7 +35,7 @@ CHECKS = {
   category="model_checking",
   text="OnceInit.tla is checked by TLC over every interleaving of 3 threads x 4 attempts x outcomes for both seed kinds (negative control: seed "
        "dropped inside the initialiser); the real cell goes through every outcome sequence up to length 4 on both code paths and with a "
-       "panicking seed destructor with counted seeds/values, through 300 races of 2-4 threads and 300 publish races (readers spinning on get() while one thread initialises; negative control PublishLate).",
+       "panicking seed destructor with counted seeds/values, through 300 races of 2-4 threads and 300 publish races on each code path (readers spinning on get() and waiters in get_or_init while one thread initialises; negative control PublishLate).",
   design="5/C17", note="Interleavings of the real races are OS-produced.",
   technique="TLA+ spec OnceInit.tla checked by TLC; exhaustive outcome-sequence replay on the real cell with drop accounting",
  ),
@@ -46,7 +46,7 @@ CHECKS = {
        "(each child exactly once, right kind/id/extension, root included, nothing else exists; as-built registration is the negative "
        "control). Every generated case is materialised as a real directory, tar and zip archives (in memory and file-backed, stored and "
        "deflated, './' prefixes, long and unicode names) and an embedded table, and every query of the universe is asked of each source, "
-       "also from 4 threads (duplicate and dir/../ member names, GNU long names, empty and 300 kB members, symlinked and non-UTF-8-named entries, a root named like a file); the embed! macro is expanded in its own harness variant and compared with the filesystem on a fixed directory.",
+       "also from 4 threads (duplicate and dir/../ member names, GNU long names, empty and 300 kB members, symlinked and non-UTF-8-named entries, a root named like a file); the entries listed are also asked is_file / is_dir / id / parent_id (ParentIdAgrees) and the sources are asked again through &S, Arc<S> and Box<dyn Source>; the embed! macro is expanded in its own harness variant and compared with the filesystem on a fixed directory.",
   design="5/C04", note="Trees of <= 3 nodes exhaustively (4 in the thorough tier), <= 5 by simulation; 2 model names x 4 concretisations; archive formats trusted to the tar/zip crates.",
   technique="TLA+ spec Sources.tla checked by TLC; spec->code replay of every generated (tree, members, order) on all source kinds",
  ),
@@ -54,7 +54,7 @@ CHECKS = {
   category="model_checking",
   text="Sources.tla states which ids a directory / recursive directory asset lists (RefDirIds/RefRecIds) and TLC checks the code's algorithm against "
        "them for every tree, four extension lists (one of them empty) and an unreadable sub-directory; every generated tree is loaded through load_dir / "
-       "load_rec_dir (also Arc<T>), ids, iter and iter_cached on every source kind and compared with the specification's sets, incl. the root "
+       "load_rec_dir (also Arc<T>, and a type with its own select_ids / sub_directories against RefRecIdsF), ids, iter and iter_cached on every source kind and compared with the specification's sets, incl. the root "
        "id and a missing directory.",
   design="5/C11", note="Same bounds as C04; unreadable directories are simulated by a wrapper source.",
   technique="TLA+ spec Sources.tla checked by TLC; spec->code replay of generated trees through the directory assets on all source kinds",
@@ -73,7 +73,7 @@ CHECKS = {
   category="model_checking",
   text="RwGuard.tla refines rewrites and reads to word granularity under the entry lock; TLC checks NoTornRead, Pinned, ChangeOnlyInHotReload and "
        "ReturnAfterPass over every interleaving of 2 readers, reloader and caller in both modes (two negative controls). Real reader threads with "
-       "short, long-held and mapped guards over a 4 KiB inline value race a stream of reloads under both lock implementations and both modes; "
+       "short, long-held and mapped guards over a 4 KiB inline value (and copied()/cloned() loops on 64- and 16-byte values) race a stream of reloads under both lock implementations and both modes; "
        "their GuardAcq/GuardRel observations, the Write hook and hot_reload Begin/End are validated against the specification; inline values of 60 size classes (1 .. 4100 bytes, alignments 1/2/4/8) are reloaded and must be replaced whole.",
   design="5/C07", note="Torn reads in the real runs are detected probabilistically; memory orderings are not modelled.",
   technique="TLA+ spec RwGuard.tla checked by TLC; trace validation of guard/write/hot_reload events from reader-vs-reloader stress runs",
@@ -83,7 +83,7 @@ CHECKS = {
   text="The ownership ledgers of CacheRace.tla and AssetCache.tla are checked by TLC (StoredLive, LoserDropped, NoLeak, DropOnce, NoUseAfterDrop); "
        "every value in the concurrent and sequential runs is a tracked token whose drop is accepted only after the step that kills it, exactly "
        "once, with nothing left once the cache is gone; four value layouts (zero-sized, 1 byte, heap, 64-aligned) are counted through every "
-       "operation incl. reload replacement, and all (stored, requested) type pairs are asked of untyped handles and guards.",
+       "operation incl. reload replacement, each layout is held by a plain, mapped and untyped guard across a requested reload (nothing dropped, id unmoved until release), and all (stored, requested) type pairs are asked of untyped handles and guards.",
   design="5/C13", note="The ownership protocol is decided, not the memory safety of the unsafe code implementing it (tracked values and counters are observations).",
   technique="TLA+ specs CacheRace.tla/AssetCache.tla checked by TLC; drop-ledger trace validation; layout probes",
  ),
@@ -92,7 +92,7 @@ CHECKS = {
   text="Answers.tla models the answer mailbox at mutex/condvar grain; TLC exhausts 3-4 concurrent callers for deadlock freedom, OwnAnswer, "
        "NoLostWakeup and (under fairness) AllReturn, with the as-built consume-without-notify as negative control; Reloader.tla bounds the sort "
        "on every dependency graph incl. cycles; Lifecycle.tla shows no request is orphaned. The real crate runs 2-8 concurrent callers x "
-       "loader threads x event bursts (plain, cyclic look-ups, panicking reloads, sender dropped mid-run) in a child under a progress "
+       "loader threads x event bursts (plain, cyclic look-ups, reloads panicking with message and opaque payloads, sender dropped mid-run) in a child under a progress "
        "watchdog; its Request/Notify/Consume/return events are validated against Answers.tla (up to 4 callers) and every hook event of the reloader thread against the thread automaton Trace_Thread.tla.",
   design="5/C08", note="Real schedules are those the OS produced (seeded drivers); all schedules are covered only in the model, for <= 4 callers. "
        "Blocked = no completed call and no CPU for 4 s.",
@@ -113,7 +113,7 @@ CHECKS = {
   text="TLC checks Converged (cached value = a fresh load from the current source and cache whenever the reloader is quiet and nothing the "
        "asset depends on is pending) on the diamond, re-wiring and directory worlds, and the as-built sort against OrderOK on every graph "
        "of <= 5 nodes incl. cycles; the D8 shape is the negative control. Every generated history (value edits, re-wiring, break/repair, "
-       "create/delete, directory changes, batches with duplicates and noise, hot_reload and enhance modes) is replayed on the real crate "
+       "create/delete, directory changes, batches with duplicates, noise and entries that share an id, a recorded set that shrinks to nothing, hot_reload and enhance modes) is replayed on the real crate "
        "with values, reload ids and registered dependency sets compared after every step, and every hook event of the reloader thread in those replays is validated against Trace_Thread.tla / DepsGraph.tla (loop structure, answers after their pass, known verdicts, changed sets, OrderOK).",
   design="5/C05", note=HOT_NOTE + " Known finding C05/rewire-same-batch is reported as KNOWN-FINDING.",
   technique="TLA+ specs AssetCache.tla + Reloader.tla checked by TLC; spec->code replay of TLC-generated edit/notify histories with hook-based synchronisation; code->spec trace validation of the reloader thread (Trace_Thread.tla)",
